@@ -136,6 +136,19 @@ pub struct Ctx {
     unit: AtomicU64,
 }
 
+/// Panics caught inside helpers whose callers only see an `Err` (program construction in `space::`):
+/// drained into the worker's violations after the run, so that a caller that skips unbuildable programs
+/// cannot skip a panic.
+pub static DEFERRED: Mutex<Vec<(String, String, String)>> = Mutex::new(Vec::new());
+
+/// record a panic observed while building `case` (class from the panic message)
+pub fn defer_panic(case: String, message: String) {
+    let mut d = DEFERRED.lock().unwrap();
+    if d.len() < 200 {
+        d.push((panic_class(&message), case, message));
+    }
+}
+
 pub static CUR_ORDINAL: AtomicU64 = AtomicU64::new(0);
 pub static CUR_START_MS: AtomicU64 = AtomicU64::new(0);
 static T0: Mutex<Option<Instant>> = Mutex::new(None);
@@ -349,6 +362,9 @@ pub fn worker_main(p: &PropDef, a: WorkerArgs) -> ! {
     };
     let mut out = Out::default();
     let r = guard(|| (p.run)(&ctx, &mut out));
+    for (class, case, message) in DEFERRED.lock().unwrap().drain(..) {
+        out.violation(&class, "build", case, message);
+    }
     if let Err(e) = r {
         // a panic that escaped the property's own guards is a harness bug
         println!("ENGINE-PANIC {}", e);
